@@ -145,8 +145,11 @@ package log
 // segment's fields, its mapped bytes and its durable image only, so writing to one segment cannot
 // disturb another (SegSep). Mentioned for a concrete segment, its definition is unfolded.
 //@ opaque SegGood(s *segment) bool reads s.n, s.size, s.synced, s.file, s.file.Data, bytesof(s.file.Data), s.file.gdur = s.file != nil && SegInv(s) && CrashOK(s)
-//@ pure SegOK(l *Log, x *segment) bool = SegGood(x) && (x.prev != nil ==> l.gin[ref(x.prev)] && x.prev.next == x && x.prev.prevIndex + x.prev.n == x.prevIndex && x.prev.n > 0) && (x.next != nil ==> l.gin[ref(x.next)] && x.next.prev == x && x.synced == x.n) && (x.prev == nil ==> x == l.first) && (x.next == nil ==> x == l.last) && x.prevIndex + x.n < 18446744073709551615
-//@ pure SegSep(x *segment, y *segment) bool = x.file != y.file && arrof(x.file.Data) != arrof(y.file.Data)
+//@ pure SegOK(l *Log, x *segment) bool = SegGood(x) && (x.prev != nil ==> l.gin[ref(x.prev)] && x.prev.next == x && x.prev.prevIndex + x.prev.n == x.prevIndex && x.prev.n > 0) && (x.next != nil ==> l.gin[ref(x.next)] && x.next.prev == x && x.synced == x.n && x.next.gord == x.gord + 1) && l.first.gord <= x.gord && x.gord <= l.last.gord && (x.prev == nil ==> x == l.first) && (x.next == nil ==> x == l.last) && x.prevIndex + x.n < 18446744073709551615
+// segment.gord: ghost position of the segment in the list (consecutive along next, distinct), so that a walk
+// from first to last provably visits every element of the ghost set gin
+//@ ghost field segment.gord int
+//@ pure SegSep(x *segment, y *segment) bool = x.file != y.file && arrof(x.file.Data) != arrof(y.file.Data) && x.gord != y.gord
 //@ pure LogShape(l *Log) bool = l.first != nil && l.last != nil && InList(l, l.first) && InList(l, l.last) && l.first.prev == nil && l.last.next == nil && SegGood(l.first) && SegGood(l.last) && forall(x, l.gin[x] ==> x != 0 && allocated(x) && SegOK(l, x)) && forall(x, y, l.gin[x] && l.gin[y] && x != y ==> SegSep(x, y))
 //@ pure LogPrev(l *Log) uint64 = ite(l.index == nil, l.first.prevIndex, l.index[0])
 //@ pure LogLast(l *Log) uint64 = ite(l.index == nil, l.last.prevIndex + l.last.n, l.index[1])
